@@ -243,6 +243,16 @@ where
     U: DataType,
     V: DataType,
 {
+    fingerprint_opt(tds, true)
+}
+
+/// `with_cell_data = false`: user data of cells is left out (cells that an operation destroys and
+/// re-creates legitimately lose it; which cells those are depends on the internal flip sequence)
+pub fn fingerprint_opt<U, V, const D: usize>(tds: &Tds<f64, U, V, D>, with_cell_data: bool) -> String
+where
+    U: DataType,
+    V: DataType,
+{
     let mut vs: Vec<String> = tds
         .vertices()
         .map(|(_, v)| {
@@ -283,7 +293,7 @@ where
         cs.push(format!(
             "[{}]d{}n{{{}}}",
             cell_sig(k),
-            data_tok(&c.data),
+            if with_cell_data { data_tok(&c.data) } else { "*".to_string() },
             nb.join("|")
         ));
     }
